@@ -39,6 +39,10 @@ def file_mode_for_path(path):
 
 
 def format_code(text, filename):
+    if text.startswith("\ufeff"):
+        # a byte order mark is not part of the code
+        return "\ufeff" + format_code(text[1:], filename)
+
     if _config.config.format_command is not None:
         format_command = _config.config.format_command.format(filename=filename)
         result = sp.run(
